@@ -89,7 +89,11 @@ def handle (cmd : String) (args : List Int) : Option String :=
         let bSorted := sortedIdx fle D idx
         let bMin := idx.all (fun i => (List.range D.length).all (fun j => idx.contains j || leO fle D[i]? D[j]?))
         let bDist := ds.isEmpty || distsOk c D idx ds
-        pure s!"ok {encB tie} {encB spec} {encB bLen} {encB bRange} {encB bNodup} {encB bSorted} {encB bMin} {encB bDist} {encNats (ans.map (·.2))} {encFloats (ans.map (·.1))} {encFloat gap}"
+        -- rows with near-ties are judged by the specification up to `tieEps` (Props: knn_tol_profile)
+        let specTol := knnSpecB (leTol fle tieEps) D k idx
+        -- the float haversine formula is ill-conditioned within ~1e-6 of the antipode
+        let illcond := c.metric == .haversine && (sorted.take (k + 1)).any (fun d => decide (F.pi - 1e-6 < d))
+        pure s!"ok {encB tie} {encB spec} {encB bLen} {encB bRange} {encB bNodup} {encB bSorted} {encB bMin} {encB bDist} {encNats (ans.map (·.2))} {encFloats (ans.map (·.1))} {encFloat gap} {encB specTol} {encB illcond}"
       | _, _ => pure "err"
   /- C11.radius variant cfg r q els implIdx implDist
      → err | ok tie spec range nodup dist modelIdx modelDist rin -/
@@ -111,7 +115,9 @@ def handle (cmd : String) (args : List Int) : Option String :=
         let bRange := idx.all (fun i => decide (i < D.length))
         let bNodup := decide idx.Nodup
         let bDist := ds.isEmpty || distsOk c D idx ds
-        pure s!"ok {encB tie} {encB spec} {encB bRange} {encB bNodup} {encB bDist} {encNats (ans.map (·.2))} {encFloats (ans.map (·.1))} {encFloat rin}"
+        -- boundary ties are judged by the radius specification up to `tieEps` (radius_tol_sandwich)
+        let specTol := radiusSpecTolB fle tieEps D rt idx
+        pure s!"ok {encB tie} {encB spec} {encB bRange} {encB bNodup} {encB bDist} {encNats (ans.map (·.2))} {encFloats (ans.map (·.1))} {encFloat rin} {encB specTol}"
       | _, _ => pure "err"
   /- C11.dists cfg q els → err | ok D… (tree-unit distances, for diagnostics / radius choice) -/
   | "C11.dists" => do
